@@ -6,7 +6,7 @@
 static int trial, scen;
 static _Atomic long ticker_count;
 static _Atomic int stop_ticker, stop_busy;
-static vp_counter_t *c_sleeps, *c_trials, *c_minslack_us, *c_cohort, *c_api[4], *c_cpu_before, *c_busy_yielders, *c_quick_exit, *c_short, *c_shortened;
+static vp_counter_t *c_sleeps, *c_trials, *c_minslack_us, *c_cohort, *c_api[4], *c_cpu_before, *c_busy_yielders, *c_quick_exit, *c_short, *c_shortened, *c_lag, *c_lagmax;
 
 static const long durations_us[] = {0, 1, 999, 1000, 4900, 5000, 7000, 12000, 20000};
 
@@ -44,15 +44,29 @@ static void do_sleep(fb_slot_t* s, int api, long us) {
   const long el_us = (long)((b.tv_sec - a.tv_sec) * 1000000L + (b.tv_nsec - a.tv_nsec) / 1000);
   vp_add(c_sleeps, 1);
   vp_add(c_api[api], 1);
-  if (el_us < req_us)
-    vp_violation("C09", "sleep:early", "trial %d scenario %d: %s for %ld us returned after %ld us (timer ticks seen so far: %llu)", trial, scen,
+  if (el_us < req_us) {
+    const uint64_t a_ns = (uint64_t)a.tv_sec * 1000000000ULL + (uint64_t)a.tv_nsec;
+    vp_violation("C09", "sleep:early", "trial %d scenario %d: %s for %ld us returned after %ld us (wake tick registered: %llu; tick base now %llu; "
+                 "the monotonic clock puts the tick base at %llu when the call was made and at %llu now)", trial, scen,
                  api == 0 ? "fiber_sleep" : (api == 1 ? "usleep" : (api == 2 ? "nanosleep" : "sleep")), req_us, el_us,
-                 (unsigned long long)vp_ghost_ticks());
+                 (unsigned long long)(g ? atomic_load(&g->sleep_wake_tick) : 0), (unsigned long long)vp_ghost_ticks(),
+                 (unsigned long long)vp_ghost_clock_ticks(a_ns), (unsigned long long)vp_ghost_clock_ticks(vp_now_ns()));
+  }
   else
     vp_min(c_minslack_us, el_us - req_us + 1);
   // the library rounds a request of X ms up to X+1 ticks of 5 ms counted from its tick base; a sleep that lasted less than X ticks
   // was registered against a base that was missing ticks already consumed from the timer (still legal unless shorter than requested)
   if (api != 3 && el_us + 500 < (req_us / 1000 + 1) * 5000) vp_add(c_shortened, 1);
+  if (g && api != 3) {
+    // how far the tick base this sleep was registered against lagged behind the monotonic clock (evidence, not a verdict: a lagging
+    // base shortens the sleep by that many ticks once they are delivered; whether that makes it early is judged above)
+    const uint64_t a_ns2 = (uint64_t)a.tv_sec * 1000000000ULL + (uint64_t)a.tv_nsec;
+    const uint64_t clk = vp_ghost_clock_ticks(a_ns2), wake = atomic_load(&g->sleep_wake_tick), span = (uint64_t)(req_us / 1000 + 1);
+    if (clk && wake >= span && clk > wake - span) {
+      vp_add(c_lag, 1);
+      vp_max(c_lagmax, (long)(clk - (wake - span)));
+    }
+  }
   if (g) {
     // (the library may add a courtesy yield after resuming; what must be unique is the sleep registration and its wake-up)
     const uint64_t wk = atomic_load(&g->sleep_wakes) - wake0, rg = atomic_load(&g->sleep_regs) - reg0, so = atomic_load(&g->switches_out) - out0;
@@ -143,6 +157,8 @@ static void* root(void* x) {
   c_quick_exit = vp_counter("sleep_then_exit_immediately");
   c_short = vp_counter("sleep_short_repeated");
   c_shortened = vp_counter("sleep_shortened_by_ticks_in_flight");
+  c_lag = vp_counter("sleep_registered_against_tick_base_behind_the_clock");
+  c_lagmax = vp_counter("sleep_max_tick_base_lag_ticks");
   uint64_t rng = vp_mix(vp_cfg.seed, 909);
   static fb_slot_t* sl[1024];
   for (trial = 0; trial < trials; ++trial) {
